@@ -210,6 +210,8 @@ class Normalizer:
         for f in list(repo.funcs.values()):
             self._replace_node(f, self.unflag_loops(f))
         for f in list(repo.funcs.values()):
+            self._replace_node(f, self.desugar_listcomp(f))
+        for f in list(repo.funcs.values()):
             self._replace_node(f, self.positional(f))
         for f in list(repo.funcs.values()):
             self._replace_node(f, self.propagate(f))
@@ -712,6 +714,50 @@ class Normalizer:
         new.body = block(list(f.node.body))
         return new if hit[0] else None
 
+    # ------------------------------------------------------------------------------------------ N8
+    def desugar_listcomp(self, f: Func) -> t.Optional[FuncNode]:
+        """X = [ELT for T in IT if C]   ->   X = [];  for T in IT:  if C:  X.append(ELT)
+        (one generator, not over range(): index comprehensions over byte windows are read as repeated reads instead)."""
+        hit = [False]
+        bound_elsewhere = stored_names(f.node) | {a.arg for a in _params(f.node)}
+
+        def block(stmts: t.List[ast.stmt]) -> t.List[ast.stmt]:
+            out: t.List[ast.stmt] = []
+            for s in stmts:
+                if isinstance(s, (ast.FunctionDef, ast.AsyncFunctionDef, ast.ClassDef)):
+                    out.append(s)
+                    continue
+                s2 = s
+                for fld in ("body", "orelse", "finalbody"):
+                    blk = getattr(s, fld, None)
+                    if isinstance(blk, list) and blk and isinstance(blk[0], ast.stmt):
+                        if s2 is s:
+                            s2 = copy.copy(s)
+                        setattr(s2, fld, block(blk))
+                v = getattr(s2, "value", None)
+                tgt = s2.targets[0] if isinstance(s2, ast.Assign) and len(s2.targets) == 1 else (s2.target if isinstance(s2, ast.AnnAssign) else None)
+                if isinstance(s2, (ast.Assign, ast.AnnAssign)) and isinstance(tgt, ast.Name) and isinstance(v, ast.ListComp) and len(v.generators) == 1 and not v.generators[0].is_async:
+                    g = v.generators[0]
+                    tnames = {n.id for n in ast.walk(g.target) if isinstance(n, ast.Name)}
+                    over_range = isinstance(g.iter, ast.Call) and isinstance(g.iter.func, ast.Name) and g.iter.func.id == "range"
+                    uses_target = any(isinstance(n, ast.Name) and n.id == tgt.id for n in ast.walk(v))
+                    if not over_range and not uses_target and not (tnames & (bound_elsewhere - tnames)):
+                        init = copy.copy(s2)
+                        init.value = ast.copy_location(ast.List(elts=[], ctx=ast.Load()), v)
+                        app: ast.stmt = ast.copy_location(ast.Expr(value=ast.copy_location(ast.Call(func=ast.Attribute(value=ast.Name(id=tgt.id, ctx=ast.Load()), attr="append", ctx=ast.Load()), args=[v.elt], keywords=[]), v)), v)
+                        for c in reversed(g.ifs):
+                            app = ast.copy_location(ast.If(test=c, body=[app], orelse=[]), v)
+                        loop = ast.copy_location(ast.For(target=g.target, iter=g.iter, body=[app], orelse=[]), v)
+                        out.extend([init, loop])
+                        hit[0] = True
+                        continue
+                out.append(s2)
+            return out
+
+        new = copy.copy(f.node)
+        new.body = block(list(f.node.body))
+        return new if hit[0] else None
+
     # ------------------------------------------------------------------------------------------ N7
     def unflag_loops(self, f: Func) -> t.Optional[FuncNode]:
         """done = False; while not done: BODY; done = E   ->   while True: BODY; if E: break
@@ -790,10 +836,11 @@ class Normalizer:
                 if isinstance(g, Func):
                     return g, False
                 return None
-            if r is None and fn.attr.startswith("_") and not fn.attr.startswith("__"):
-                # private method on some object: unique definition in the package
+            if r is None and not fn.attr.startswith("__"):
+                # method on some object: all definitions of that name in the package agree on the parameter list
                 defs = [c.methods[fn.attr] for c in repo.classes.values() if fn.attr in c.methods]
-                if len(defs) == 1 and not defs[0].is_staticmethod:
+                sigs = {tuple(p.arg for p in list(d.node.args.posonlyargs) + list(d.node.args.args)) for d in defs}
+                if defs and len(sigs) == 1 and not any(d.is_staticmethod or d.node.args.vararg for d in defs):
                     return defs[0], True
         return None
 
